@@ -32,7 +32,10 @@ RULE = ("each run draws a wrapped probe element (fill/compute with reset, fill/r
         " elements with both interfaces, run elements with a reset method (asked for or not) and"
         " run elements that yield nothing for some blocks, bare None values in the flow, Reverse"
         " as post-element of FillRequestSeq, a stopping fill/request sibling in the Split, the"
-        " same object run twice, and a flow of 1100 values between two requests.")
+        " same object run twice, and a flow of 1100 values between two requests."
+        " Also: a deep copy of the adapter is driven in one history of five, fill/request"
+        " elements that also have a compute method, elements whose methods have other names, flows"
+        " of 70-99 values with block sizes 3, 5, 7.")
 REAL = ["lena.core.FillRequest (fill, request, run, reset)", "lena.core.FillRequestSeq",
         "lena.core.Split (as the driver of a fill/request branch)", "lena.core.FillSeq"]
 STUB = ["probe elements (record fill / compute / request / reset / run, results name the values "
@@ -58,7 +61,7 @@ EXPECTED_PROBES = ["push-buffer_output-overflow", "push-buffer_input-overflow", 
                    "thousand-blocks-between-two-requests", "none-values-in-the-flow",
                    "element-with-both-interfaces", "run-element-with-reset-method-unasked",
                    "run-element-with-reset-method-asked", "deep-copied-adapter",
-                   "element-with-request-and-compute"]
+                   "element-with-request-and-compute", "element-with-renamed-methods"]
 
 BUDGET = 200000
 
@@ -130,6 +133,25 @@ class ProbeFRR(ProbeFCR):
         return ProbeFCR.compute(self)
 
     compute = None
+
+
+class ProbeFRRenamed(ProbeFRR):
+    """fill / request / reset under other names (given to the adapter); the method called fill
+    is something else and must not be used"""
+
+    def add(self, v):
+        ProbeFRR.fill(self, v)
+
+    def ask(self):
+        return ProbeFRR.request(self)
+
+    def clear(self):
+        ProbeFRR.reset(self)
+
+    def fill(self, v):
+        self.log.ev("decoy-fill", self.name)
+
+    request = None
 
 
 class ProbeFRRDecoy(ProbeFRR):
@@ -237,10 +259,11 @@ def gen_scenario(tape):
     # the same object runs a second flow afterwards
     sc.second_run = tape.draw(9, "second-flow-len") if (sc.driver == "run" and tape.chance(1, 3, "run-twice")) else None
     # many blocks buffered between two requests (a Split with its default bufsize of 1000 does that)
-    sc.long = sc.driver == "push" and sc.wrapper == "bare" and tape.chance(1, 150, "long-flow")
+    sc.long = sc.driver == "push" and sc.wrapper == "bare" and tape.chance(1, 60, "long-flow")
     if sc.long:
-        sc.n = 1
-        sc.len = 1100
+        # bufsize 1 and 1100 values, or a block size that divides no power of two and 70-99 values
+        sc.n = tape.choice([1, 3, 5, 7], "long-bufsize")
+        sc.len = 1100 if sc.n == 1 else 70 + tape.draw(30, "long-len")
         sc.remainder = False
         sc.buffer = "input"
     # the wrapped element itself signals LenaStopFill at its k-th fill (push and Split drivers)
@@ -264,6 +287,8 @@ def gen_scenario(tape):
     sc.both = sc.kind == "fr" and sc.wrapper != "seq" and tape.chance(1, 4, "element-with-both-interfaces")
     # a fill/request element that also has a compute method
     sc.fr_decoy = sc.kind == "fr" and not sc.both and tape.chance(1, 4, "request-and-compute")
+    # the methods of the wrapped element have other names, given to the adapter
+    sc.renamed = sc.kind == "fr" and not sc.both and not sc.fr_decoy and tape.chance(1, 5, "renamed-methods")
     # the adapter that is driven is a deep copy
     sc.deepcopy = sc.kind in ("fc", "fr") and tape.chance(1, 5, "deep-copied-adapter")
     # bare None values in the flow
@@ -287,6 +312,8 @@ def make_probe(sc, log):
         return ProbeFCR(log, "el", sc.results, getattr(sc, "stop_at", None))
     if sc.kind == "fr" and getattr(sc, "both", False):
         return ProbeBoth(log, "el", sc.results, getattr(sc, "stop_at", None))
+    if sc.kind == "fr" and getattr(sc, "renamed", False):
+        return ProbeFRRenamed(log, "el", sc.results, getattr(sc, "stop_at", None))
     if sc.kind == "fr" and getattr(sc, "fr_decoy", False):
         return ProbeFRRDecoy(log, "el", sc.results, getattr(sc, "stop_at", None))
     if sc.kind == "fr":
@@ -320,6 +347,8 @@ def _make_adapter(sc, probe):
         kw["buffer_input"] = True
     else:
         kw["buffer_output"] = True
+    if getattr(sc, "renamed", False):
+        kw.update(fill="add", request="ask", reset_name="clear")
     if sc.kind == "run":
         if getattr(sc, "run_reset", "none") == "asked":
             return lena.core.FillRequest(probe, reset=True, **kw)
@@ -439,6 +468,9 @@ def run(tape):
     if sc.deepcopy:
         res.probe("deep-copied-adapter")
         res.say("a deep copy of the adapter is driven")
+    if sc.renamed:
+        res.probe("element-with-renamed-methods")
+        res.say("the methods of the wrapped element are called add / ask / clear")
     if sc.fr_decoy:
         res.probe("element-with-request-and-compute")
         res.say("the wrapped element has request and also a compute method")
